@@ -1196,6 +1196,12 @@ func (c *Context) quantize(d, v *Decimal, exp int32) Condition {
 			if !d.IsZero() {
 				d.Coeff.SetInt64(0)
 				res = Inexact | Rounded
+				// v is non-zero but less than half a unit of the target
+				// exponent: it rounds to zero or, in the modes that round
+				// away from zero here, to one unit.
+				if c.Rounding.ShouldAddOne(&d.Coeff, d.Negative, -1) {
+					d.Coeff.SetInt64(1)
+				}
 			}
 		} else {
 			nc := c.WithPrecision(uint32(p))
